@@ -75,11 +75,11 @@ def _tlc_error(out):
 
 
 def code_to_spec(rep: Report, env, conf, calls, what, module='PureTrace', hashseed=0, kind=None, tag='t',
-                 script='run_calls.py', extra=None, envs=None, per=500, chunk=20000, split_on=None):
+                 script='run_calls.py', extra=None, envs=None, per=500, chunk=20000, split_on=None, shard_key=None):
     """(b)+(c): execute calls on the implementation and validate the trace."""
     if not calls:
         return None
-    trace = execute(env, calls, hashseed=hashseed, script=script, extra=extra, tag=tag, envs=envs, per=per)
+    trace = execute(env, calls, hashseed=hashseed, script=script, extra=extra, tag=tag, envs=envs, per=per, shard_key=shard_key)
     v = validate(trace, conf, module=module, chunk=chunk, split_on=split_on)
     rep.add_validation(v, what)
     if v['fails']:
